@@ -3,7 +3,7 @@
 From ZV.Common Require Import Base Run.
 From Coq Require Import Sorting.Permutation Sorting.Sorted.
 From ZV.C12 Require Import Spec Model ProofsOrder ProofsSearch ProofsBuild ProofsKasai ProofsAll.
-From ZV.C12 Require Import ModelDict ProofsDictRange ProofsDict ModelEsa ProofsEsa ModelCases.
+From ZV.C12 Require Import ModelDict ProofsDictRange ProofsDict ModelEsa ProofsEsa ModelKeyed ProofsKeyed ModelCases.
 Open Scope nat_scope.
 
 (* the order used by the spec is the textbook one: proper prefix, or smaller at the first difference *)
@@ -305,3 +305,78 @@ Check cesa_narrow_width_refuted :
     | None => False
     end.
 Print Assumptions cesa_narrow_width_refuted.
+
+(* ================= comparator shapes of the sort-based constructions ================= *)
+
+(* sort_by with any comparator that is the suffix comparator on the positions of the text *)
+Theorem sort_by_cmp_is_sa :
+  forall cmp t,
+    (forall i j, i < length t -> j < length t -> cmp i j = lex_cmp (suffix t i) (suffix t j)) ->
+    is_sa t (sort_by cmp (length t)).
+Proof. exact sort_by_cmp_is_sa_proof. Qed.
+Check sort_by_cmp_is_sa :
+  forall cmp t,
+    (forall i j, i < length t -> j < length t -> cmp i j = lex_cmp (suffix t i) (suffix t j)) ->
+    is_sa t (sort_by cmp (length t)).
+Print Assumptions sort_by_cmp_is_sa.
+
+(* build with the sort_by closure as a parameter: the closure the code has gives the model of build, and
+   every closure that is the suffix comparator on the text gives the suffix array *)
+Theorem build_by_plain_is_build :
+  forall sais analyse c t, build_by plain_cmp sais analyse c t = build sais analyse c t.
+Proof. exact build_by_plain_is_build_proof. Qed.
+Check build_by_plain_is_build :
+  forall sais analyse c t, build_by plain_cmp sais analyse c t = build sais analyse c t.
+Print Assumptions build_by_plain_is_build.
+
+Theorem build_by_is_sa :
+  forall (cmp : list N -> nat -> nat -> comparison) sais analyse c t,
+    (forall i j, i < length t -> j < length t -> cmp t i j = lex_cmp (suffix t i) (suffix t j)) ->
+    (select_algorithm analyse c t = SAIS \/ select_algorithm analyse c t = Adaptive -> is_sa t (sais t)) ->
+    is_sa t (build_by cmp sais analyse c t).
+Proof. exact build_by_is_sa_proof. Qed.
+Check build_by_is_sa :
+  forall (cmp : list N -> nat -> nat -> comparison) sais analyse c t,
+    (forall i j, i < length t -> j < length t -> cmp t i j = lex_cmp (suffix t i) (suffix t j)) ->
+    (select_algorithm analyse c t = SAIS \/ select_algorithm analyse c t = Adaptive -> is_sa t (sais t)) ->
+    is_sa t (build_by cmp sais analyse c t).
+Print Assumptions build_by_is_sa.
+
+(* "zero-padded K-byte key first, then the remainders" equals the slice order exactly when the two strings
+   are not a pair of different strings that both fit in the key and have the same padded key *)
+Theorem keyed_compare_is_suffix_compare :
+  forall K a b, keyed_cmp K a b = lex_cmp a b <-> ~ (a <> b /\ key_tie K a b).
+Proof. exact keyed_compare_is_suffix_compare_proof. Qed.
+Check keyed_compare_is_suffix_compare :
+  forall K a b, keyed_cmp K a b = lex_cmp a b <-> ~ (a <> b /\ key_tie K a b).
+Print Assumptions keyed_compare_is_suffix_compare.
+
+(* hence the keyed sort is the suffix array when no two suffixes tie, in particular when the text does
+   not end in a zero byte *)
+Theorem keyed_sort_is_sa :
+  forall K t,
+    (forall i j, i < j -> j < length t -> ~ key_tie K (suffix t i) (suffix t j)) ->
+    is_sa t (keyed_sort K t).
+Proof. exact keyed_sort_is_sa_proof. Qed.
+Check keyed_sort_is_sa :
+  forall K t,
+    (forall i j, i < j -> j < length t -> ~ key_tie K (suffix t i) (suffix t j)) ->
+    is_sa t (keyed_sort K t).
+Print Assumptions keyed_sort_is_sa.
+
+Theorem keyed_sort_last_nonzero :
+  forall K t, last t 1%N <> 0%N -> is_sa t (keyed_sort K t).
+Proof. exact keyed_sort_last_nonzero_proof. Qed.
+Check keyed_sort_last_nonzero :
+  forall K t, last t 1%N <> 0%N -> is_sa t (keyed_sort K t).
+Print Assumptions keyed_sort_last_nonzero.
+
+(* ... and wrong for texts ending in NUL bytes: an 8-byte key on "\0\0" *)
+Theorem keyed_compare_refuted :
+  exists K t, ~ is_sa t (keyed_sort K t) /\
+              exists i j, keyed_cmp K (suffix t i) (suffix t j) <> lex_cmp (suffix t i) (suffix t j).
+Proof. exact keyed_compare_refuted_proof. Qed.
+Check keyed_compare_refuted :
+  exists K t, ~ is_sa t (keyed_sort K t) /\
+              exists i j, keyed_cmp K (suffix t i) (suffix t j) <> lex_cmp (suffix t i) (suffix t j).
+Print Assumptions keyed_compare_refuted.
